@@ -272,6 +272,7 @@ func genC02(ctx *Ctx) {
 	// (d) an internal request (heartbeat) times out and its answer arrives late, after the
 	// whole id space has been cycled and while client requests are in flight
 	lateInternalAnswer(ctx, &tag)
+	pipelinedPrepares(ctx, &tag)
 	// (e) concurrent re-preparation of one statement on several connections
 	concurrentReprepare(ctx, r, &tag)
 	// (f) the same, with the schedule forced: connection A's writer is stalled while B re-prepares
@@ -351,10 +352,14 @@ func forcedReprepareSchedule(ctx *Ctx, tag *int) {
 		case <-origA.closed:
 		case <-time.After(time.Second):
 		}
+		all := []echoResult{res}
+		if cached.Header.StreamId != 0 {
+			all = append(all, echoResult{2, 2, tok, 2, fmt.Sprintf("the-cached-prepare-frame-was-written-to:stream-id-%d", cached.Header.StreamId)})
+		}
 		_ = connA.Close()
 		_ = connB.Close()
 		cancel()
-		emitEcho(ctx, []echoResult{res}, "forced-schedule:shared-prepare-frame", false)
+		emitEcho(ctx, all, "forced-schedule:shared-prepare-frame", false)
 	}
 }
 
@@ -423,6 +428,14 @@ func forcedSharedRequestSchedule(ctx *Ctx, tag *int) {
 				res = append(res, x)
 			}
 		}
+		// a frame that is shared between connections must not have been written to (each sender works on its own copy of the
+		// header): whether or not the two writers happened to interleave badly this time
+		for i, q := range reqs {
+			if rf, ok := q.frm.(*frame.RawFrame); ok && rf.Header.StreamId != 0 {
+				res = append(res, echoResult{2, i + 1, toks[i], 2, fmt.Sprintf("the-shared-request-frame-was-written-to:stream-id-%d", rf.Header.StreamId)})
+				break
+			}
+		}
 		_ = connA.Close()
 		_ = connB.Close()
 		cancel()
@@ -434,6 +447,81 @@ func forcedSharedRequestSchedule(ctx *Ctx, tag *int) {
 func echoRoundBig(e *echoEnv, tag, clients, streams int) []echoResult {
 	r := hv.NewRng(uint64(tag))
 	return echoRound(e, tag, clients, streams, 1, r, 0)
+}
+
+// pipelinedPrepares: several PREPAREs of one statement the proxy already knows, in flight at once on one client connection
+// (drivers re-prepare everything at start-up), each on its own stream; then the same streams are used for queries.  Every
+// stream gets exactly one answer, a PREPARED result first and its own query's rows afterwards.
+func pipelinedPrepares(ctx *Ctx, tag *int) {
+	e := newEchoEnv(2, nil)
+	defer e.close()
+	cl, err := px.Dial(e.env.Addr)
+	if err != nil {
+		panic(err)
+	}
+	defer cl.Close()
+	if cl.Startup(primitive.ProtocolVersion4, "") != nil {
+		panic("startup")
+	}
+	q := "SELECT v FROM ks.t WHERE k = ? AND j = 0"
+	_ = cl.Send(primitive.ProtocolVersion4, 1, &message.Prepare{Query: q})
+	if f, _ := cl.Next(5 * time.Second); f == nil {
+		panic("prepare")
+	}
+	for round := 0; round < ctx.Scale(4, 60); round++ {
+		*tag++
+		k := 2 + round%7
+		var all []byte
+		for i := 0; i < k; i++ {
+			all = append(all, cl.Encode(primitive.ProtocolVersion4, int16(10+i), &message.Prepare{Query: q}, nil)...)
+		}
+		_ = cl.SendRaw(all)
+		perStream := map[int16]int{}
+		prepared := map[int16]bool{}
+		for i := 0; i < k; i++ {
+			f, _ := cl.Next(3 * time.Second)
+			if f == nil {
+				break
+			}
+			perStream[f.Stream]++
+			prepared[f.Stream] = f.Opcode == byte(primitive.OpCodeResult)
+		}
+		var res []echoResult
+		for i := 0; i < k; i++ {
+			st := int16(10 + i)
+			x := echoResult{0, int(st), fmt.Sprintf("q%dx9x%d", *tag, i+1), 2, fmt.Sprintf("%d-answers-to-the-PREPARE-on-this-stream", perStream[st])}
+			if perStream[st] == 1 && prepared[st] {
+				x.verdict, x.got = 1, x.sent
+			}
+			res = append(res, x)
+		}
+		// the streams are used again at once
+		toks := map[int16]string{}
+		all = all[:0]
+		for i := 0; i < k; i++ {
+			tok := fmt.Sprintf("q%dx8x%d", *tag, i+1)
+			toks[int16(10+i)] = tok
+			all = append(all, cl.Encode(primitive.ProtocolVersion4, int16(10+i), &message.Query{Query: "SELECT v FROM ks.t WHERE k = 'tok:" + tok + "'", Options: &message.QueryOptions{}}, nil)...)
+		}
+		_ = cl.SendRaw(all)
+		seen := map[int16]bool{}
+		for i := 0; i < k; i++ {
+			f, _ := cl.Next(3 * time.Second)
+			if f == nil {
+				break
+			}
+			x := echoResult{0, int(f.Stream), toks[f.Stream], 2, "nothing"}
+			x.verdict, x.got = classifyEcho(f, toks[f.Stream])
+			seen[f.Stream] = true
+			res = append(res, x)
+		}
+		for st, tok := range toks {
+			if !seen[st] {
+				res = append(res, echoResult{0, int(st), tok, 2, "nothing"})
+			}
+		}
+		emitEcho(ctx, res, "pipelined-prepares-then-the-same-streams", false)
+	}
 }
 
 func lateInternalAnswer(ctx *Ctx, tag *int) {
